@@ -179,7 +179,8 @@ def log_multinomial_coefficient(x):
 
 @numba.jit(nopython=True)
 def log_beta_binomial_likelihood(n, x, a, b):
-    return log_beta(a + x, b + n - x) - log_beta(a, b)
+    # b + (n - x), not (b + n) - x: for x == n a tiny b must not be rounded to the spacing of n first
+    return log_beta(a + x, b + (n - x)) - log_beta(a, b)
 
 
 @numba.jit(nopython=True)
